@@ -5,9 +5,11 @@ use crate::{
 use futures::{pin_mut, StreamExt};
 use sos_backend::BackendTarget;
 use sos_core::{
-    commit::CommitHash, events::EventRecord, AccountId, SecretId, VaultId,
+    commit::CommitHash,
+    events::{EventLogType, EventRecord},
+    AccountId, SecretId, VaultId,
 };
-use sos_database::entity::FolderEntity;
+use sos_database::entity::{EventEntity, FolderEntity};
 use sos_vault::Summary;
 use sos_vfs as vfs;
 use std::sync::Arc;
@@ -165,7 +167,24 @@ async fn check_folder(
                 })
                 .await?;
 
-            if folder_row.is_none() {
+            // A folder always has at least the create vault event
+            let has_events = if let Some(row) = &folder_row {
+                let row_id = row.row_id;
+                client
+                    .conn_and_then(move |conn| {
+                        let events = EventEntity::new(&conn);
+                        let commits = events.load_commits(
+                            EventLogType::Folder(db_folder_id),
+                            row_id,
+                        )?;
+                        Ok::<_, sos_database::Error>(!commits.is_empty())
+                    })
+                    .await?
+            } else {
+                false
+            };
+
+            if folder_row.is_none() || !has_events {
                 notify_listeners(
                     &mut vault_tx,
                     FolderIntegrityEvent::Failure(
